@@ -469,3 +469,8 @@ def run(ctx):
     ctx.guard(rule_o8)
     ctx.guard(rule_o9)
     ctx.guard(rule_o3)
+    from . import c18
+    ctx.guard(c18.rule_r11)      # sized free of the msgq ring: the recorded extent belongs to the storage
+    for rr in ctx.rules:
+        if rr.id == "C18.R11":
+            rr.id = "C03.O10"
